@@ -4,6 +4,17 @@ from bip_utils import Base58Encoder, Base58Decoder, Base58Alphabets
 
 ALPHS = [Base58Alphabets.BITCOIN, Base58Alphabets.RIPPLE]
 
+MANIFEST = {
+    "text": "Coq theorems (all byte strings / all strings, unbounded) for the codecs' round trips and canonicity over "
+            "constants regenerated from the source, plus extracted-model/implementation correspondence on exhaustive "
+            "small domains and random inputs.",
+    "note": "Hash functions are oracles with a length hypothesis; Base32/CBOR delegated to stdlib/cbor2 are modelled "
+            "from their RFCs.",
+    "technique": "Coq proof (induction over radix digit lists) + generated-constant obligations + extracted-model "
+                 "differential run",
+    "ref": "7/C11",
+}
+
 RULE = ("Byte strings: exhaustive for lengths 0..2 (thorough; quick: 0..1 plus a sample of length 2), random "
         "lengths up to 200 with leading-zero runs; strings: random over the alphabet, mutated encodings, "
         "foreign characters.")
